@@ -272,6 +272,7 @@ var regionRoots = []string{
 	"(*Server).AnnounceTraversal", "filterPeers", "(*Server).setReturnNodes", "(*Server).writeToNode",
 	"(*traversal.Operation).startQuery", "(*traversal.Operation).run", "(*traversal.Operation).addClosest",
 	"(*bep44.Wrapper).Put", "(*bep44.Wrapper).Get", "(k-nearest-nodes.Type).Push",
+	"(tokenServer).createToken", "(*tokenServer).ValidToken", "(*Server).transactionQuerySender",
 }
 
 var singleSite = map[*ssa.Function]ssa.Instruction{}
